@@ -22,6 +22,7 @@ import (
 	"bufio"
 	"encoding/hex"
 	"fmt"
+	"github.com/ryogrid/SamehadaDB/lib/storage/buffer"
 	"math"
 	"os"
 	"runtime/debug"
@@ -204,9 +205,18 @@ func runDB(args []string, in *bufio.Scanner, out *bufio.Writer) {
 			switch f[0] {
 			case "open":
 				a := strings.Fields(rest)
+				// hook H5: monitor the pool users' contract in this (single-goroutine) session
+				buffer.VerifContractOn = os.Getenv("VERIF_NO_CONTRACT") == ""
 				s.db = samehada.NewSamehadaDB(a[0], int(atoi64(a[1])))
+				if os.Getenv("VERIF_KEEP_BG") == "" {
+					// hook H2: no wall-clock driven checkpoints / statistics updates in a scripted session
+					s.db.VerifStopBackground()
+				}
 				s.txns = map[string]*access.Transaction{}
 				return "ok"
+			case "contract":
+				// breaches of the pool users' contract recorded since the last call (hook H5)
+				return "ok:" + strings.Join(buffer.VerifContractBreachesTake(), "|")
 			case "close":
 				s.db.Shutdown()
 				s.db = nil
